@@ -3,7 +3,7 @@
   whose event is (not) due, one idle block, and any number of idle blocks.
 -/
 import DymVerif.Lemmas.CoreLevFrame
-namespace DymVerif.Core
+namespace DymVerif.Core.LevNs
 
 -- ---------------------------------------------------------------- arithmetic of consecutive heights
 
@@ -299,4 +299,4 @@ theorem blocks_idle {a : Addr} {ra c : Nat} : âˆ€ (bs : List (Nat Ã— List (Nat Ã
     Â· show (runBlocks (endBlock (beginBlock s b.1) b.2) bs).p = _
       rw [ip, hp]
 
-end DymVerif.Core
+end DymVerif.Core.LevNs
